@@ -48,7 +48,8 @@ CONF = {
                        ("override", 150, 1500)],
                 big=[("ctxsync", 300, 3000), ("nonasync", 200, 2000)]),
     "C07": dict(prefixes=("C07.",), builds=("pure",),
-                model=[("override", 500, 5000), ("overridesync", 350, 3500), ("overridefaults", 350, 3500), ("ctx", 150, 1500)],
+                model=[("override", 400, 5000), ("overridesync", 300, 3500), ("overridefaults", 300, 3500), ("ctx", 100, 1500),
+                       ("overridedag", 500, 5000), ("overrideset", 400, 4000)],
                 big=[("overridesync", 300, 3000), ("overridefaults", 300, 3000)]),
     "C08": dict(prefixes=("C08.",), builds=("pure",),
                 model=[("session", 400, 4000), ("syncfaults", 200, 2500), ("overflow", 300, 3000), ("overflowbatch", 400, 4000), ("sync", 150, 1500), ("throw", 250, 2500), ("spawnsync", 300, 3000), ("lazyfail", 150, 1500)],
